@@ -12,19 +12,21 @@ pub struct Input {
     pub label: String,
     pub bytes: Vec<u8>,
     pub opts: Opts,
+    /// longest symbol of the underlying valid stream, in input bytes (0 = unknown)
+    pub max_sym: usize,
 }
 
 /// valid streams x options, corrupted variants, trailing-byte variants
 pub fn inputs(seed: u64, tier: Tier) -> Vec<Input> {
     let mut v = Vec::new();
-    let items = corpus::valid_items(seed, tier == Tier::Thorough);
+    let items = corpus::valid_items(seed, true);
     for it in &items {
         for k in ALL_OPTS {
             if tier == Tier::Quick && it.name.starts_with("long-symbols") && !matches!(k, corpus::OptKind::Header | corpus::OptKind::ProvidedSome) {
                 continue;
             }
             if let Some(b) = it.build(k) {
-                v.push(Input { label: format!("{} [{:?}] max-symbol={}B", it.name, k, b.max_symbol_bytes), bytes: b.bytes.clone(), opts: b.opts });
+                v.push(Input { label: format!("{} [{:?}] max-symbol={}B", it.name, k, b.max_symbol_bytes), bytes: b.bytes.clone(), opts: b.opts, max_sym: b.max_symbol_bytes });
                 // trailing bytes after the stream
                 if it.name.starts_with("mix") || it.name.starts_with("lits12") {
                     for (tn, t) in [("00", vec![0u8]), ("00x5", vec![0u8; 5]), ("ffx3", vec![0xFF; 3]), ("00x20", vec![0u8; 20]), ("payload-again", b.bytes[b.header_len..].to_vec())] {
@@ -33,7 +35,7 @@ pub fn inputs(seed: u64, tier: Tier) -> Vec<Input> {
                         }
                         let mut x = b.bytes.clone();
                         x.extend_from_slice(&t);
-                        v.push(Input { label: format!("{} [{:?}] + trailing {}", it.name, k, tn), bytes: x, opts: b.opts });
+                        v.push(Input { label: format!("{} [{:?}] + trailing {}", it.name, k, tn), bytes: x, opts: b.opts, max_sym: 0 });
                     }
                 }
             }
@@ -47,14 +49,14 @@ pub fn inputs(seed: u64, tier: Tier) -> Vec<Input> {
             for (mn, f) in [("^01", 0x01u8), ("^80", 0x80u8)] {
                 let mut x = b.bytes.clone();
                 x[pos] ^= f;
-                v.push(Input { label: format!("{} byte {} {}", it.name, pos, mn), bytes: x, opts: b.opts });
+                v.push(Input { label: format!("{} byte {} {}", it.name, pos, mn), bytes: x, opts: b.opts, max_sym: 0 });
             }
             if tier == Tier::Thorough || pos % 3 == 0 {
                 for val in [0x00u8, 0xFF] {
                     if b.bytes[pos] != val {
                         let mut x = b.bytes.clone();
                         x[pos] = val;
-                        v.push(Input { label: format!("{} byte {} := {:02x}", it.name, pos, val), bytes: x, opts: b.opts });
+                        v.push(Input { label: format!("{} byte {} := {:02x}", it.name, pos, val), bytes: x, opts: b.opts, max_sym: 0 });
                     }
                 }
             }
@@ -62,8 +64,8 @@ pub fn inputs(seed: u64, tier: Tier) -> Vec<Input> {
     }
     // liblzma-made files from the repository
     for (name, bytes) in corpus::repo_lzma_files(400) {
-        v.push(Input { label: format!("repo file {}", name), bytes: bytes.clone(), opts: Opts::default() });
-        v.push(Input { label: format!("repo file {} [HeaderProvided(None)]", name), bytes, opts: Opts { size: SizeOpt::HeaderProvided(None), ..Opts::default() } });
+        v.push(Input { label: format!("repo file {}", name), bytes: bytes.clone(), opts: Opts::default(), max_sym: 0 });
+        v.push(Input { label: format!("repo file {} [HeaderProvided(None)]", name), bytes, opts: Opts { size: SizeOpt::HeaderProvided(None), ..Opts::default() }, max_sym: 0 });
     }
     v
 }
@@ -84,7 +86,7 @@ pub fn run(tier: Tier) -> i32 {
         let inp = &ins[i as usize];
         let g = stream_graph::explore(&ctx, &inp.bytes, &inp.opts, &Mode::Equivalence, &inp.label);
         ctx.eval(g.edges);
-        if g.max_states_per_offset > 1 || inp.label.contains("long-symbols") {
+        if g.max_states_per_offset > 1 || inp.max_sym >= 4 || g.failed_nodes > 0 {
             ctx.nontriv(1);
         }
         let mut a = agg.lock().unwrap();
@@ -104,6 +106,7 @@ pub fn run(tier: Tier) -> i32 {
     ctx.set_extra("finish_probes", json!(a.4));
     ctx.set_extra("longest_input_bytes", json!(a.5));
     ctx.set_extra("inputs", json!(ins.len()));
+    ctx.set_extra("longest_symbol_in_corpus_input_bytes", json!(ins.iter().map(|i| i.max_sym).max().unwrap_or(0)));
     ctx.scope_done(&name, ins.len() as u64, t0, &format!("{} states, {} write edges, {} merges ({} audited)", a.0, a.1, a.2, a.3));
     ctx.finish()
 }
